@@ -161,5 +161,5 @@ func TestC17HandshakeCoalesced(t *testing.T) {
 	rec := vt.For("C17")
 	rec.Rule("handshake boundary: a raw TCP server answers the WebSocket upgrade and writes 1-3 message frames (text/binary, with/without trailing newline) so that a generated number of their bytes - from none to all - travel in the same write as the 101 response, the rest 30 ms later, then a last message; the repository's gobwas and gorilla WebSocketDial must read exactly the messages sent, in order; non-trivial = at least one frame byte shares the response's segment; distinct by (library, messages, cut)")
 	rec.Assume("loopback TCP delivers one write of a few hundred bytes as one segment in practice; whether the client sees it in one read is up to the kernel (cases where it does not are still valid, just less interesting)")
-	rapid.Check(t, func(rt *rapid.T) { c17HandshakeCase(rt, rec) })
+	check(t, func(rt *rapid.T) { c17HandshakeCase(rt, rec) })
 }
